@@ -223,6 +223,16 @@ func VerifHarness_C06_volume_names() {
 		{"s.vol0+1.par2", "s.vol1+1.par2", "s.extra.par2"},
 	}[rt.Choice("names", 4)]
 	s := c06Scenario(files, []int{0, 1, 2}, names, false)
+	if rt.Bool("strays") {
+		// files that match <base>.*.par2 but hold nothing of this set, sorting before,
+		// between and after the set's own volumes: another set's packets, and an empty file
+		var other [16]byte
+		other[0] = 0x42
+		foreign := refWrite(other, []refPkt{{"PAR 2.0\x00Creator", []byte("zzz\x00")}}, -1, 0)
+		s.fs.put(scnDir+"/s.0foreign.par2", foreign)
+		s.fs.put(scnDir+"/s.empty.par2", []byte{})
+		s.fs.put(scnDir+"/s.zforeign.par2", foreign)
+	}
 	res, err := verify(s.fs, scnIndex, VerifyOptions{NumGoroutines: 1})
 	rt.Assert(err == nil, "Verify reads the conformant set")
 	if err == nil {
